@@ -181,16 +181,19 @@ theorem parser_tables_match_source :
 any `N0 > 0`: `to_ms` succeeds; `from_ms` of the printed command with the same `N0` and the
 deme's name succeeds and gives a graph in generations with that one deme, the same lifetime and
 the same size — exactly (`(N/N0)·N0 = N` in the Model's rationals; no symbolic size remains).
-Description and selfing/cloning rates are not expressible in ms and come back as defaults. -/
+Description and selfing/cloning rates are not expressible in ms and come back as defaults.
+The deme's name must be an identifier (as it is in every valid graph): since the repair of F23
+`rename_demes`, hence `from_ms(…, deme_names=…)`, rejects any other name
+(`C08.fromMs_bad_names_rejected`). -/
 theorem toMs_fromMs_structure (c : NumCodec) (sa : Growth → String) (g : Graph) (name desc : String)
-    (N sr cr N0 : Q) (hN : 0 < N) (hN0 : 0 < N0)
+    (N sr cr N0 : Q) (hN : 0 < N) (hN0 : 0 < N0) (hid : isIdentifier name = true)
     (hd : g.demes = [constDeme name desc N sr cr]) (hm : g.migrations = []) (hp : g.pulses = [])
     (hc : N0 ≠ N → c.ok (.fin (N / N0))) :
     ∃ toks mg, toMs g N0 none = .ok toks ∧ fromMs (renderG c sa toks) N0 (some [name]) = .ok mg ∧
       mg.graph.timeUnits = "generations" ∧ mg.graph.generationTime = 1 ∧
       mg.graph.demes = [constDeme name "" N 0 0] ∧ mg.graph.migrations = [] ∧ mg.graph.pulses = [] ∧
       mg.table = [] :=
-  Proofs.MsPrint.toMs_fromMs_structure c sa g name desc N sr cr N0 hN hN0 hd hm hp hc
+  Proofs.MsPrint.toMs_fromMs_structure c sa g name desc N sr cr N0 hN hN0 hid hd hm hp hc
 
 /-- **F6.**  The general round trip is false: a valid two-deme graph with a pulse of proportion
 1 (`A → B` at time 4, `N0 = 1`) is printed `-I 2 0 0 -es 1.0 2 0.0 -ej 1.0 3 1`, and `from_ms`
